@@ -23,8 +23,10 @@ Streams
                    collection's own methods / item writes / reassignment to the collection being traversed) in its own method with a
                    拦截异常 handler so that the run goes on after each fault; constructors for predefined names; 其 / 此
                    outside methods; nested definitions
-Correspondence Go ≈ model is checked on every `value` case the model answers (list, dictionary, number, part of the text
-members, `#` / 之 reductions, default and 异常 constructors, 显示, display, copy, equality); the rest is `unmodelled`.
+Correspondence Go ≈ model is checked on every `value` case the model answers (list, dictionary, number and text
+members, `#` / 之 reductions, default and 异常 constructors, 显示, display, copy, equality); the rest is `unmodelled`
+(texts that are not valid UTF-8, case mapping of non-English cased letters, 转换数值 on inf / nan / hexadecimal /
+underscore spellings and on numerals that may be out of range, library functions).
 """
 import os, subprocess, sys
 from zngen import *
@@ -42,8 +44,9 @@ ASSUMPTIONS = [
     "the predefined 数值 is one process-wide object (mutable: C16): its cases are compared with the model on the outcome class only",
 ]
 PARTIAL = ("file and network primitives are OS calls (error paths sampled, not proved); Go stack exhaustion by unbounded recursion of "
-           "user methods is outside the quantifier; text methods wrapping Go's strings package, library functions and the HTTP "
-           "classes are swept on the real code but have no Lean model (listed in unmodelledMembers)")
+           "user methods is outside the quantifier; library functions and the HTTP classes are swept on the real code but have "
+           "no Lean model; the text methods are modelled inside TextFragment (partlyModelledMembers: case mapping of non-English cased letters "
+           "and the special spellings / possible overflow of strconv.ParseFloat answer notModelled and are swept on the real code only)")
 
 F = {  # float64 bit patterns
     '0': '0000000000000000', '-0': '8000000000000000', '1': '3ff0000000000000', '-1': 'bff0000000000000',
